@@ -82,6 +82,22 @@ def build_timing(t, in_action):
     return base if d == 0 else base + d          # d < 0: "end - k"
 
 
+def timing_spec(t):
+    """spec of a global timing, None when outside the edit language"""
+    if t.is_global() and (t.is_from_start() or t.delay == 0):
+        return ["start" if t.is_from_start() else "end", str(Fraction(t.delay))]
+    return None
+
+
+def interval_spec(iv):
+    lo, up_ = timing_spec(iv.lower), timing_spec(iv.upper)
+    if lo is None or up_ is None:
+        return None
+    if iv.lower == iv.upper and not iv.is_left_open() and not iv.is_right_open():
+        return ["point", lo]
+    return ["iv", lo, up_, iv.is_left_open(), iv.is_right_open()]
+
+
 def build_interval(iv, in_action=False):
     if iv[0] == "point":
         return TimePointInterval(build_timing(iv[1], in_action))
@@ -476,12 +492,19 @@ class Gen:
             if eff is None:
                 return None
             t = ["start", str(rng.choice([1, 1, 2, Fraction(5, 2)]))]
+            existing = [x for x in (timing_spec(tt) for tt in getattr(p, "timed_effects", {})) if x is not None]
+            if existing and rng.random() < 0.4:
+                t = rng.choice(existing)
             if rng.random() < 0.06:
                 t = ["end", "0"]                          # add_timed_effect rejects end timings
             return {"op": op, "t": t, "eff": eff}
         if op == "timed_goal":
             lo = rng.choice([0, 1, 2])
             r = rng.random()
+            existing = [iv for iv in (interval_spec(i) for i in getattr(p, "timed_goals", {})) if iv is not None]
+            if existing and rng.random() < 0.5:
+                # an interval the problem already has: the edit lands in an inner list that existed when it was cloned
+                return {"op": op, "iv": rng.choice(existing), "e": self.bool_exp(fl, objs, [])}
             if r < 0.4:
                 iv = ["point", ["start", str(lo)]]
             elif r < 0.9:
